@@ -1,13 +1,19 @@
 ---------------------------- MODULE ArenaTrace ----------------------------
 (* Trace validation for C27 (arena part): is a recorded history of the real arena a behaviour of Arena.tla ?
    Events (ndjson, in stamp order; numbers < 2^31; Inf = 1000000 stands for "no limit"):
-     {"e":"init","mu":MU,"mc":MC,"al":ALIGN,"es":ELEMSIZE}
+     {"e":"init","mu":MU,"mc":MC,"al":ALIGN,"es":ELEMSIZE,"hd":sizeof(chunk header) (not used here)}
      {"e":"inv","t":T,"op":"alloc","c":C}
-     {"e":"malloc","t":T,"b":B,"sz":BYTES}     the arena's data_malloc callback, logged inside it (B = new block id)
-     {"e":"res","t":T,"op":"alloc","b":B,"mod":M,"room":R}     B = 0: refused; M = data address mod alignment;
-                                                               R = bytes between the data address and the block's end
-     {"e":"inv","t":T,"op":"rel","b":B,"tag":1|0}               tag = the owner's mark in the block is intact
-     {"e":"free","t":T,"b":B}                  the arena's data_free callback, logged inside it (T = 0: arena destructor)
+     {"e":"malloc","t":T,"b":B,"sz":BYTES,"base":ADDR}     the arena's data_malloc callback, logged inside it (B = new
+                                               block id, ADDR = the address it returns, BYTES = the size asked from it)
+     {"e":"res","t":T,"op":"alloc","b":B,"data":D,"ext":N,"al":A}     B = 0: refused; D = address of the data handed
+                                               out (-1: not even in the harness' memory), N = count * elem_size = what
+                                               the caller is entitled to use, A = the alignment of the arena
+     {"e":"inv","t":T,"op":"rel","b":B,"tag":1|0}               tag = the owner's mark over its N bytes is intact
+     {"e":"free","t":T,"b":B,"can":1|0}        the arena's data_free callback, logged inside it (T = 0: arena destructor);
+                                               can = the guard bytes before and after the block are intact
+   Addresses are offsets in the harness' backing region (the harness' data_malloc returns every residue modulo the
+   alignment that malloc may return).  geo = where the memory of each block obtained from the system lies, ext = the
+   extents currently handed out (Arena!Aligned / Inside / Apart: the placement part of the property).
      {"e":"res","t":T,"op":"rel"}
      {"e":"final"}                             arena destroyed
    Silent steps between inv and res: TakeS (a cached block is handed out), RefuseS (the refusal is justified by the
@@ -15,8 +21,8 @@
    cache: only below the cache limit), DropS (the block is given up: it stops counting, then must be freed). *)
 EXTENDS Arena, Sequences, Json, IOUtils, TLC
 CONSTANTS Thr
-VARIABLES l, pend, align, esize
-tvars == <<owner, cached, cnt, dying, maxUsed, maxCached, l, pend, align, esize>>
+VARIABLES l, pend, align, esize, geo, ext
+tvars == <<owner, cached, cnt, dying, maxUsed, maxCached, l, pend, align, esize, geo, ext>>
 
 TraceLog == ndJsonDeserialize(IOEnv.TRACE)
 None == [op |-> "none"]
@@ -24,14 +30,16 @@ Ev == TraceLog[l]
 IsEv(e) == l <= Len(TraceLog) /\ Ev.e = e /\ l' = l + 1
 Idle == \A t \in Thr : pend[t] = None
 
-TInit == /\ AInit(Inf, Inf) /\ l = 1 /\ pend = [t \in Thr |-> None] /\ align = 1 /\ esize = 1
+TInit == /\ AInit(Inf, Inf) /\ l = 1 /\ pend = [t \in Thr |-> None] /\ align = 1 /\ esize = 1 /\ geo = <<>> /\ ext = <<>>
 TSetInit == /\ IsEv("init") /\ Idle
             /\ owner' = <<>> /\ cached' = {} /\ cnt' = <<>> /\ dying' = {}
             /\ maxUsed' = Ev.mu /\ maxCached' = Ev.mc /\ align' = Ev.al /\ esize' = Ev.es
+            /\ geo' = <<>> /\ ext' = <<>>
             /\ UNCHANGED pend
 TReset == /\ IsEv("Reset")
           /\ owner' = <<>> /\ cached' = {} /\ cnt' = <<>> /\ dying' = {}
           /\ maxUsed' = Inf /\ maxCached' = Inf /\ align' = 1 /\ esize' = 1
+          /\ geo' = <<>> /\ ext' = <<>>
           /\ pend' = [t \in Thr |-> None]
 
 TInv == /\ IsEv("inv") /\ Ev.t \in Thr /\ pend[Ev.t] = None
@@ -39,31 +47,38 @@ TInv == /\ IsEv("inv") /\ Ev.t \in Thr /\ pend[Ev.t] = None
            THEN pend' = [pend EXCEPT ![Ev.t] = [op |-> "alloc", c |-> Ev.c, b |-> 0, st |-> "wait"]]
            ELSE /\ Ev.op = "rel" /\ Ev.b \in Owned /\ owner[Ev.b] = Ev.t /\ Ev.tag = 1
                 /\ pend' = [pend EXCEPT ![Ev.t] = [op |-> "rel", c |-> 0, b |-> Ev.b, st |-> "wait"]]
-        /\ UNCHANGED <<avars, align, esize>>
+        /\ ext' = IF Ev.op = "rel" THEN Restrict(ext, DOMAIN ext \ {Ev.b}) ELSE ext     \* the owner gives its extent up
+        /\ UNCHANGED <<avars, align, esize, geo>>
 
 \* ---- alloc
+\* block b is handed out as the n bytes at address d: aligned as requested, at least as large as asked (all of it inside
+\* the memory obtained for b), sharing no byte with the extent of another block that is handed out at this moment
+Placement(b, d, n) == /\ d >= 0 /\ Aligned(d, align)
+                      /\ b \in DOMAIN geo /\ Inside(d, n, geo[b].base, geo[b].sz)
+                      /\ \A o \in DOMAIN ext \ {b} : Apart(d, n, ext[o].d, ext[o].n)
 TMalloc == /\ IsEv("malloc") /\ Ev.t \in Thr /\ pend[Ev.t] # None /\ pend[Ev.t].op = "alloc" /\ pend[Ev.t].st = "wait"
-           /\ Ev.sz >= pend[Ev.t].c * esize
+           /\ Ev.sz >= pend[Ev.t].c * esize /\ Ev.base >= 0
            /\ Fresh(Ev.t, Ev.b, pend[Ev.t].c)
            /\ pend' = [pend EXCEPT ![Ev.t].st = "got", ![Ev.t].b = Ev.b]
-           /\ UNCHANGED <<align, esize>>
+           /\ geo' = Extend(geo, Ev.b, [base |-> Ev.base, sz |-> Ev.sz])
+           /\ UNCHANGED <<align, esize, ext>>
 TakeS(t) == /\ pend[t] # None /\ pend[t].op = "alloc" /\ pend[t].st = "wait" /\ pend[t].c = 1
             /\ \E b \in cached : Take(t, b) /\ pend' = [pend EXCEPT ![t].st = "got", ![t].b = b]
-            /\ UNCHANGED <<l, align, esize>>
+            /\ UNCHANGED <<l, align, esize, geo, ext>>
 InFlight(t) == Sum([u \in Thr |-> IF u # t /\ pend[u] # None /\ pend[u].op = "alloc" /\ pend[u].st \in {"wait", "refused"}
                                   THEN pend[u].c ELSE 0], Thr)
 RefuseS(t) == /\ pend[t] # None /\ pend[t].op = "alloc" /\ pend[t].st = "wait"
               /\ maxUsed # Inf /\ Elems + pend[t].c + InFlight(t) > maxUsed
               /\ pend' = [pend EXCEPT ![t].st = "refused"]
-              /\ UNCHANGED <<avars, l, align, esize>>
+              /\ UNCHANGED <<avars, l, align, esize, geo, ext>>
 \* ---- release
 KeepS(t) == /\ pend[t] # None /\ pend[t].op = "rel" /\ pend[t].st = "wait"
             /\ Keep(t, pend[t].b) /\ pend' = [pend EXCEPT ![t].st = "kept"]
-            /\ UNCHANGED <<l, align, esize>>
+            /\ UNCHANGED <<l, align, esize, geo, ext>>
 DropS(t) == /\ pend[t] # None /\ pend[t].op = "rel" /\ pend[t].st = "wait"
             /\ Drop(t, pend[t].b) /\ pend' = [pend EXCEPT ![t].st = "dropped"]
-            /\ UNCHANGED <<l, align, esize>>
-TFree == /\ IsEv("free")
+            /\ UNCHANGED <<l, align, esize, geo, ext>>
+TFree == /\ IsEv("free") /\ Ev.can = 1                       \* nobody wrote outside the memory of the block
          /\ IF Ev.t = 0
             THEN \* the destructor empties the cache
                  /\ Idle /\ Ev.b \in cached
@@ -72,20 +87,24 @@ TFree == /\ IsEv("free")
             ELSE /\ Ev.t \in Thr /\ pend[Ev.t] # None /\ pend[Ev.t].op = "rel" /\ pend[Ev.t].st = "dropped"
                  /\ pend[Ev.t].b = Ev.b /\ Freed(Ev.b)
                  /\ pend' = [pend EXCEPT ![Ev.t].st = "freed"]
-         /\ UNCHANGED <<align, esize>>
+         /\ geo' = Restrict(geo, DOMAIN geo \ {Ev.b})
+         /\ UNCHANGED <<align, esize, ext>>
 TRes == /\ IsEv("res") /\ Ev.t \in Thr /\ pend[Ev.t] # None /\ pend[Ev.t].op = Ev.op
         /\ IF Ev.op = "alloc"
            THEN \/ /\ pend[Ev.t].st = "got" /\ Ev.b = pend[Ev.t].b
-                   /\ Ev.mod = 0 /\ Ev.room >= pend[Ev.t].c * esize          \* aligned as requested, large enough
-                \/ /\ pend[Ev.t].st = "refused" /\ Ev.b = 0
-           ELSE pend[Ev.t].st \in {"kept", "freed"}
+                   /\ Placement(Ev.b, Ev.data, pend[Ev.t].c * esize)
+                   /\ Ev.ext = pend[Ev.t].c * esize /\ Ev.al = align
+                   /\ ext' = Extend(ext, Ev.b, [d |-> Ev.data, n |-> pend[Ev.t].c * esize])
+                \/ /\ pend[Ev.t].st = "refused" /\ Ev.b = 0 /\ UNCHANGED ext
+           ELSE pend[Ev.t].st \in {"kept", "freed"} /\ UNCHANGED ext
         /\ pend' = [pend EXCEPT ![Ev.t] = None]
-        /\ UNCHANGED <<avars, align, esize>>
+        /\ UNCHANGED <<avars, align, esize, geo>>
 TFinal == /\ IsEv("final") /\ Idle /\ cached = {} /\ dying = {}
-          /\ UNCHANGED <<avars, pend, align, esize>>
+          /\ UNCHANGED <<avars, pend, align, esize, geo, ext>>
 
+Waiting == {t \in Thr : pend[t] # None /\ pend[t].st = "wait"}       \* only these can take a silent step
 TNext == \/ TSetInit \/ TReset \/ TInv \/ TMalloc \/ TFree \/ TRes \/ TFinal
-         \/ \E t \in Thr : TakeS(t) \/ RefuseS(t) \/ KeepS(t) \/ DropS(t)
+         \/ \E t \in Waiting : TakeS(t) \/ RefuseS(t) \/ KeepS(t) \/ DropS(t)
 TSpec == TInit /\ [][TNext]_tvars
 AcceptExit == (l > Len(TraceLog)) => (PrintT("VERIF-ACCEPTED") /\ TLCSet("exit", TRUE))
 Limits == OneOwner /\ WithinLimits
